@@ -58,7 +58,7 @@ def bind_args(call: ast.Call, fn: ast.FunctionDef, skip_first=True):
     return out
 
 
-def _shared_state(ctx, col):
+def _shared_state(ctx, col, as_rule="R12.9"):
     from .c19 import _class_state, _module_state
 
     class _As:
@@ -66,7 +66,7 @@ def _shared_state(ctx, col):
             self.col = col
 
         def add(self, rule, *a, **k):
-            return self.col.add("R12.9", *a, **k)
+            return self.col.add(as_rule, *a, **k)
 
         def __getattr__(self, n):
             return getattr(self.col, n)
